@@ -1681,6 +1681,13 @@ M("C15", "failed-country-still-in-denominator", RMNTF,
                 n_errors += 1''', "C15.ACC")
 M("C18", "R-fill-explicit-copy", PARF,
   '''        arr = np.array(arr, dtype=float)''', '''        arr = np.array(arr, dtype=float).copy()''', None)
+NWF = "src/import_scripts_no_food_trade/create_nuclear_winter_csv.py"
+IFDF = "src/import_scripts_no_food_trade/import_food_data.py"
+M("C17", "R-nw-columns-through-a-helper", NWF, '    # Loop through the crop and grass reduction columns for each year\n    for i in range(1, 11):\n        # Convert the crop reduction column to float and divide by 100\n        nw_csv["crop_reduction_year" + str(i)] = nw_csv[\n            "crop_reduction_year" + str(i)\n        ].astype(float)\n        nw_csv["crop_reduction_year" + str(i)] = nw_csv[\n            "crop_reduction_year" + str(i)\n        ].div(100)\n        # Replace values greater than 9.36e34 with -1\n        nw_csv["crop_reduction_year" + str(i)] = np.where(\n            nw_csv["crop_reduction_year" + str(i)] > 9.36e34,\n            -1,\n            nw_csv["crop_reduction_year" + str(i)],\n        )\n\n        # Convert the grass reduction column to float and divide by 100\n        nw_csv["grasses_reduction_year" + str(i)] = nw_csv[\n            "grasses_reduction_year" + str(i)\n        ].astype(float)\n        nw_csv["grasses_reduction_year" + str(i)] = nw_csv[\n            "grasses_reduction_year" + str(i)\n        ].div(100)\n        # Replace values greater than 9.36e34 with -1\n        nw_csv["grasses_reduction_year" + str(i)] = np.where(\n            nw_csv["grasses_reduction_year" + str(i)] > 9.36e34,\n            -1,\n            nw_csv["grasses_reduction_year" + str(i)],\n        )\n\n', '    def percent_to_fraction(column):\n        column = column.astype(float) / 100\n        return np.where(column > 9.36e34, -1, column)\n\n    for i in range(1, 11):\n        for reduction_type in ["crop_reduction_year", "grasses_reduction_year"]:\n            col_name = reduction_type + str(i)\n            nw_csv[col_name] = percent_to_fraction(nw_csv[col_name])\n\n', None)
+M("C17", "nw-no-data-becomes-minus-100", NWF, '    # Loop through the crop and grass reduction columns for each year\n    for i in range(1, 11):\n        # Convert the crop reduction column to float and divide by 100\n        nw_csv["crop_reduction_year" + str(i)] = nw_csv[\n            "crop_reduction_year" + str(i)\n        ].astype(float)\n        nw_csv["crop_reduction_year" + str(i)] = nw_csv[\n            "crop_reduction_year" + str(i)\n        ].div(100)\n        # Replace values greater than 9.36e34 with -1\n        nw_csv["crop_reduction_year" + str(i)] = np.where(\n            nw_csv["crop_reduction_year" + str(i)] > 9.36e34,\n            -1,\n            nw_csv["crop_reduction_year" + str(i)],\n        )\n\n        # Convert the grass reduction column to float and divide by 100\n        nw_csv["grasses_reduction_year" + str(i)] = nw_csv[\n            "grasses_reduction_year" + str(i)\n        ].astype(float)\n        nw_csv["grasses_reduction_year" + str(i)] = nw_csv[\n            "grasses_reduction_year" + str(i)\n        ].div(100)\n        # Replace values greater than 9.36e34 with -1\n        nw_csv["grasses_reduction_year" + str(i)] = np.where(\n            nw_csv["grasses_reduction_year" + str(i)] > 9.36e34,\n            -1,\n            nw_csv["grasses_reduction_year" + str(i)],\n        )\n\n', '    def percent_to_fraction(column):\n        column = column.astype(float) / 100\n        return np.where(column > 9.36e34, -100, column)\n\n    for i in range(1, 11):\n        for reduction_type in ["crop_reduction_year", "grasses_reduction_year"]:\n            col_name = reduction_type + str(i)\n            nw_csv[col_name] = percent_to_fraction(nw_csv[col_name])\n\n', "C17.NODATA")
+M("C17", "korea-fix-result-dropped", IFDF,
+  '''        dataframes[df_id] = df.replace({"KOR": "PRK", "PRK": "KOR"})''',
+  '''        fixed = df.replace({"KOR": "PRK", "PRK": "KOR"})''', "C17.WIRE")
 # ---------------------------------------------------------------------------- runner
 
 COPY = ["src", "scenarios", "scripts", "plot_manuscript_figures.py", "tests"]
